@@ -436,7 +436,9 @@ pub fn run_monitored(
                                     if fp0 == e.fp {
                                         stack.pop();
                                         ctx.count("dynamic_calls_checked", 1);
-                                        if let Some(fun) = program.funcs.iter().find(|fun| info[fun.entry_point.0].start_offset == entry) {
+                                        // (a function without code - its body is a match on an empty enum - shares its offset with the
+                                        // function laid out after it and can never be the one called)
+                                        if let Some(fun) = program.funcs.iter().filter(|fun| info[fun.entry_point.0].start_offset == entry).max_by_key(|fun| fun.entry_point.0) {
                                             if let Some(k) = md.ap_change_info.function_ap_change.get(&fun.id) {
                                                 ctx.count("dynamic_calls_with_known_ap_change", 1);
                                                 if e.ap - ap0 != *k {
